@@ -64,7 +64,22 @@ TReject ==
     /\ Ev.raised /\ Ev.nevals = 0
     /\ (Ev.lo # NONE /\ Ev.x < Ev.lo) \/ (Ev.hi # NONE /\ Ev.x > Ev.hi)
 
+(* non-dyadic steps, positions exactly k steps from a bound: no evaluation outside the bounds (not by an ulp),      *)
+(* finite result, still the derivative of the cubic (digits relative to the conditioning of the stencil)          *)
+TScan ==
+    /\ IsEvent("Scan")
+    /\ Ev.acc \in {2, 4} /\ Ev.n \in {1, 2} /\ Ev.cases >= 100
+    /\ Ev.oob = 0 /\ Ev.nonfinite = 0 /\ Ev.d >= 7
+    /\ UNCHANGED vars
+
+(* EffectivePotential.derivT: bounded below by T = 0 -- never evaluates the potential at a negative temperature,  *)
+(* and is exact on cubics in T also within two steps of T = 0                                                   *)
+TDerivT ==
+    /\ IsEvent("DerivT")
+    /\ ~Ev.negT /\ Ev.d >= 9 /\ Ev.n >= 1
+    /\ UNCHANGED vars
+
 TInit == TraceInitLib /\ Init
-TNext == TDeriv \/ TGrad \/ THess \/ TReject
+TNext == TDeriv \/ TGrad \/ THess \/ TReject \/ TScan \/ TDerivT
 TSpec == TInit /\ [][TNext]_<<vars, tid, l>>
 =============================================================================
